@@ -187,6 +187,15 @@ def slice_to_position(F, root, n):
 def alpha(n):
     """pretty-printed expression with local variable names replaced by positional placeholders ($0, $1, ..) in order of
     first occurrence, so that renaming a local does not change the shape"""
+    import copy
+    import canon
+
+    def drop_refs(x):
+        # `&mut state.bytes_read` and `state.bytes_read` are the same place: borrows and plain derefs are not part of the shape
+        if x.get("k") == "AddrOf" or (x.get("k") == "Unary" and x.get("op") == "Deref" and not x.get("overloaded")):
+            return x["e"]
+        return x
+    n = canon.rewrite(copy.deepcopy(n), drop_refs)
     txt = tir.pretty(n)
     names = []
     for x in tir.walk(n):
@@ -201,12 +210,27 @@ def site_shape(s, sidx):
     """operand shape of a site: the typed expression it belongs to, pretty-printed (stable under unrelated edits)"""
     t = s["term"]
     want = ("Binary", "AssignOp", "Index", "Unary", "Cast") if t.get("t") == "assert" else ("MethodCall", "Call", "Index", "Binary", "AssignOp")
+    # the node the site belongs to: the operation itself (by operator / method name), not whatever larger expression starts at the same column
+    op = s["kind"].split(":", 1)[1] if s["kind"].startswith("overflow:") else None
+    meth = re.sub(r"::<[^>]*>", "", s["what"].split(" -> ")[0]).split("::")[-1] if t.get("t") == "call" else None
+    cands = []
     for key in (t.get("esp"), s.get("sp")):
         if not key:
             continue
         for o, n in near(sidx, tuple(key)):
             if n.get("k") in want:
-                return alpha(n)[:120]
+                cands.append(n)
+    for n in cands:
+        if op and n.get("k") in ("Binary", "AssignOp") and n.get("op") == op:
+            return alpha(n)[:120]
+        if meth and n.get("k") == "MethodCall" and n.get("method") == meth:
+            return alpha(n)[:120]
+        if meth in ("index", "index_mut") and n.get("k") == "Index":
+            return alpha(n)[:120]
+        if s["kind"] == "bounds" and n.get("k") == "Index":
+            return alpha(n)[:120]
+    if cands:
+        return alpha(cands[0])[:120]
     what = s["what"].split(" -> ")[0]
     return re.sub(r"::<[^>]*>", "", what).split("::")[-1]
 
@@ -225,12 +249,27 @@ def panic_inventory(F, G, rep, entries, invariants_file, M=None, gate_ok=None, r
     used_inv = set()
     sidx = span_index(F, R)
     by_class = {"R": 0, "G": 0, "I": 0, "open": 0}
-    for o in sorted(R):
+    # a private function that does not exist on the pinned tree and has a single caller is a piece of that caller moved out
+    # of line (the typed trees were inlined accordingly): its sites are keyed as the caller's, so the frozen invariants follow the code
+    helpers = set((F.doc.get("_inlined_helpers") or {}).keys())
+    attrib = {}
+    for h in helpers:
+        cs = [c for c in R if c != h and h in G.edges(c)]
+        if len(cs) == 1:
+            attrib[h] = cs[0]
+    for h in list(attrib):
+        seen = set()
+        while attrib[h] in attrib and attrib[h] not in seen:
+            seen.add(attrib[h])
+            attrib[h] = attrib[attrib[h]]
+    all_ords = {}
+    for o in sorted(R, key=lambda x: (x in attrib, x)):
         if skip_owner(o):
             continue
-        ords = {}
+        ko = attrib.get(o, o)
+        ords = all_ords.setdefault(ko, {})
         for s in G.sites(o):
-            kk = "%s|%s|%s" % (o, s["kind"], site_shape(s, sidx))
+            kk = "%s|%s|%s" % (ko, s["kind"], site_shape(s, sidx))
             n = ords.get(kk, 0)
             ords[kk] = n + 1
             key = "%s|%d" % (kk, n)
